@@ -342,6 +342,14 @@ func startScen(cfg scenCfg) (*scen, error) {
 		sc.stop()
 		return nil, fmt.Errorf("watcher did not become ready")
 	}
+	// the log subscription is the only filter on the primary path: it must name the configured contract and the topic
+	ss.sim.mu.Lock()
+	okA := len(ss.sim.critAddr) == 1 && ss.sim.critAddr[0] == evmContract
+	okT := len(ss.sim.critT0) == 1 && ss.sim.critT0[0] == evmABI.Events["LogMessagePublished"].ID
+	ss.sim.mu.Unlock()
+	if !okA || !okT {
+		sc.monf("safety:subscription-filter", "the log subscription does not restrict address to the core contract (%v) / topic to LogMessagePublished (%v)", okA, okT)
+	}
 	return sc, nil
 }
 
